@@ -4,9 +4,33 @@ import shutil
 import subprocess
 
 VERIF = os.path.dirname(os.path.abspath(__file__))
-HARNESS = os.path.join(VERIF, "harness")
-REPO = "/repo"
+REPO = os.environ.get("MB2_REPO", "/repo").rstrip("/")
+ALT = REPO != "/repo"
 NCPU = min(16, os.cpu_count() or 1)
+
+
+def _alt_harness():
+    """Checks normally build against /repo. With MB2_REPO=<dir> (a scratch worktree of
+    /repo holding a seeded change) a generated copy of the harness manifest with the
+    paths replaced is used, with its own target directories, so that seeded changes can
+    be tried without touching /repo (e.g. while a long run uses it)."""
+    d = os.path.join(VERIF, ".alt-harness")
+    os.makedirs(d, exist_ok=True)
+    src = os.path.join(VERIF, "harness")
+    man = open(os.path.join(src, "Cargo.toml")).read().replace('"/repo/', '"' + REPO + '/')
+    if not os.path.exists(os.path.join(d, "Cargo.toml")) or open(os.path.join(d, "Cargo.toml")).read() != man:
+        open(os.path.join(d, "Cargo.toml"), "w").write(man)
+    for name in ("src", ".cargo"):
+        link = os.path.join(d, name)
+        if not os.path.islink(link):
+            if os.path.exists(link):
+                shutil.rmtree(link)
+            os.symlink(os.path.join(src, name), link)
+    shutil.copy(os.path.join(src, "Cargo.lock"), os.path.join(d, "Cargo.lock"))
+    return d
+
+
+HARNESS = _alt_harness() if ALT else os.path.join(VERIF, "harness")
 
 MIRIFLAGS = "-Zmiri-disable-stacked-borrows -Zmiri-permissive-provenance -Zmiri-disable-isolation"
 
@@ -30,10 +54,10 @@ ENGINES = {
 def target_dir(engine):
     e = ENGINES[engine]
     if e["tool"] == "miri":
-        return os.path.join(VERIF, "target-miri")
+        return os.path.join(VERIF, "target-alt-miri" if ALT else "target-miri")
     if e["tool"] == "asan":
-        return os.path.join(VERIF, "target-asan")
-    return os.path.join(VERIF, "target-" + ("nd" if not e["features"] else "std"))
+        return os.path.join(VERIF, "target-alt-asan" if ALT else "target-asan")
+    return os.path.join(VERIF, ("target-alt-" if ALT else "target-") + ("nd" if not e["features"] else "std"))
 
 
 def engine_env(engine):
